@@ -372,15 +372,15 @@ def to_sdl(S, types=None, directives=None, with_schema_block=True):
             impl = (" implements " + " & ".join(t["interfaces"])) if t["interfaces"] else ""
             fs = "\n".join(desc_sdl(f["description"], "  ") + f"  {f['name']}" + args_sdl(f["args"], "  ") + f": {tstr(f['type'])}" + depr_sdl(f["deprecation"])
                            for f in t["fields"])
-            out.append(head + f"{'type' if k == 'OBJECT' else 'interface'} {t['name']}{impl} {{\n{fs}\n}}")
+            out.append(head + f"{'type' if k == 'OBJECT' else 'interface'} {t['name']}{impl}" + (f" {{\n{fs}\n}}" if t["fields"] else ""))
         elif k == "UNION":
-            out.append(head + f"union {t['name']} = " + " | ".join(t["members"]))
+            out.append(head + f"union {t['name']}" + ((" = " + " | ".join(t["members"])) if t["members"] else ""))
         elif k == "ENUM":
             vs = "\n".join(desc_sdl(v["description"], "  ") + f"  {v['name']}" + depr_sdl(v["deprecation"]) for v in t["values"])
-            out.append(head + f"enum {t['name']} {{\n{vs}\n}}")
+            out.append(head + f"enum {t['name']}" + (f" {{\n{vs}\n}}" if t["values"] else ""))
         else:
             fs = "\n".join(iv_sdl(f, "  ") for f in t["inputFields"])
-            out.append(head + f"input {t['name']}" + (" @oneOf" if t["oneOf"] else "") + f" {{\n{fs}\n}}")
+            out.append(head + f"input {t['name']}" + (" @oneOf" if t["oneOf"] else "") + (f" {{\n{fs}\n}}" if t["inputFields"] else ""))
     return "\n\n".join(out) + "\n"
 
 
